@@ -45,6 +45,7 @@ FLOORS = {
     "thorough": {"mh_steps": 700, "mala_steps": 300, "hmc_steps": 300, "accept_brackets": 2000, "reject_bit_equal": 500, "db_instances": 60, "vector_leaf_moves": 80, "support_exit_confirmed_by_reference": 30},
 }
 TIMEOUT_S = {"quick": 1800, "thorough": 7200}
+CLEAR_CACHES_EVERY = {"quick": 0, "thorough": 6}  # see lib/worker.py
 N_CASES = {"quick": 56, "thorough": 500}
 TAG_U, TAG_N = 9001, 9002
 SMOOTH = ("normal", "p_normal", "mvn")
